@@ -172,22 +172,24 @@ Definition similar_name_err (c : cat) (nd : node) (allow_clash_without_id : bool
                     && node_healthy c (n_peer e) (n_name e))
           (nodes c).
 
-Definition ensure_node (c : cat) (nd : node) : res cat :=
+(* first half of ensureNodeTxn: "See if there's an existing node with this UUID, and make
+   sure the name is the same" *)
+Definition ensure_node_byid (c : cat) (nd : node) : res (cat * option node) :=
   let p := n_peer nd in
-  (* existing node with this UUID? *)
-  let step1 : res (cat * option node) :=
-    if seqb (n_id nd) "" then Ok (c, None)
-    else match get_node_by_id c p (n_id nd) with
-         | Some ex =>
-             if seqb (n_name ex) (n_name nd) then Ok (c, Some ex)
-             else if similar_name_err c nd false then Err e_reserved
-                  else (* renaming: remove the old reference first *)
-                    Ok (delete_node c p (n_name ex), Some ex)
-         | None =>
-             if similar_name_err c nd true then Err e_reserved else Ok (c, None)
-         end in
-  bind step1 (fun '(c1, byid) =>
-    let n := match byid with Some ex => Some ex | None => get_node c1 p (n_name nd) end in
+  if seqb (n_id nd) "" then Ok (c, None)
+  else match get_node_by_id c p (n_id nd) with
+       | Some ex =>
+           if seqb (n_name ex) (n_name nd) then Ok (c, Some ex)
+           else if similar_name_err c nd false then Err e_reserved
+                else (* renaming: remove the old reference first *)
+                  Ok (delete_node c p (n_name ex), Some ex)
+       | None =>
+           if similar_name_err c nd true then Err e_reserved else Ok (c, None)
+       end.
+
+Definition ensure_node (c : cat) (nd : node) : res cat :=
+  bind (ensure_node_byid c nd) (fun '(c1, byid) =>
+    let n := match byid with Some ex => Some ex | None => get_node c1 (n_peer nd) (n_name nd) end in
     match n with
     | Some ex => if node_eqb nd ex then Ok c1 else Ok (put_node c1 nd)
     | None => Ok (put_node c1 nd)
@@ -272,27 +274,37 @@ Fixpoint ensure_checks (c : cat) (node : string) (ks : list chk) : res cat :=
       else bind (ensure_check c k) (fun c' => ensure_checks c' node ks')
   end.
 
+(* validateRegisterRequestPeerNamesTxn *)
+Definition reg_peers_ok (r : regreq) : bool :=
+  let p := n_peer (r_node r) in
+  match r_svc r with Some s => seqb (s_peer s) p | None => true end
+  && forallb (fun k => seqb (c_peer k) p) (r_chks r).
+
+(* "existing == nil || req.ChangesNode(existing)" *)
+Definition reg_node (c : cat) (nd : node) : res cat :=
+  match get_node c (n_peer nd) (n_name nd) with
+  | Some ex => if node_eqb ex nd then Ok c else ensure_node c nd
+  | None => ensure_node c nd
+  end.
+
+(* "existing == nil || !existing.ToNodeService().IsSame(req.Service)" *)
+Definition reg_svc (c : cat) (nd : node) (os : option svc) : res cat :=
+  match os with
+  | None => Ok c
+  | Some s0 =>
+      let s := svc_set_node (n_name nd) s0 in      (* svc.ToServiceNode(req.Node) *)
+      match get_svc c (n_peer nd) (n_name nd) (s_id s) with
+      | Some ex => if svc_is_same ex s then Ok c else ensure_service c s
+      | None => ensure_service c s
+      end
+  end.
+
 (* ensureRegistrationTxn; one memdb transaction: an error leaves the store as it was *)
 Definition register (c : cat) (r : regreq) : res cat :=
-  let nd := r_node r in
-  let p := n_peer nd in
-  let peers_ok := match r_svc r with Some s => seqb (s_peer s) p | None => true end
-                  && forallb (fun k => seqb (c_peer k) p) (r_chks r) in
-  if negb peers_ok then Err e_peers else
-  bind (match get_node c p (n_name nd) with
-        | Some ex => if node_eqb ex nd then Ok c else ensure_node c nd
-        | None => ensure_node c nd
-        end) (fun c1 =>
-  bind (match r_svc r with
-        | None => Ok c1
-        | Some s0 =>
-            let s := svc_set_node (n_name nd) s0 in      (* svc.ToServiceNode(req.Node) *)
-            match get_svc c1 p (n_name nd) (s_id s) with
-            | Some ex => if svc_is_same ex s then Ok c1 else ensure_service c1 s
-            | None => ensure_service c1 s
-            end
-        end) (fun c2 =>
-  ensure_checks c2 (n_name nd) (r_chks r))).
+  if negb (reg_peers_ok r) then Err e_peers else
+  bind (reg_node c (r_node r)) (fun c1 =>
+  bind (reg_svc c1 (r_node r) (r_svc r)) (fun c2 =>
+  ensure_checks c2 (n_name (r_node r)) (r_chks r))).
 
 (* FSM.applyDeregister: "if req.ServiceID != "" ... else if req.CheckID != "" ... else DeleteNode" *)
 Definition deregister (c : cat) (d : dereq) : cat :=
